@@ -165,3 +165,15 @@ Proof.
   - rewrite app_nth2 by lia. replace (length u - length u)%nat with 0%nat by lia. reflexivity.
   - rewrite app_nth2 by lia. replace (S (length u) - length u)%nat with 1%nat by lia. reflexivity.
 Qed.
+
+(* the two configuration bytes lie inside the search structure *)
+Lemma trie_bytes_has_config : forall cfg (ls : levels pb), (3 <= length ls)%nat ->
+  (S (length (uni_bytes (mk_trie true cfg ls))) < length (trie_bytes true cfg (mk_trie true cfg ls)))%nat.
+Proof.
+  intros cfg ls Hl. destruct ls as [|l0 [|l1 [|l2 rest]]]; try (cbn in Hl; lia).
+  unfold trie_bytes. set (t := mk_trie true cfg (l0 :: l1 :: l2 :: rest)).
+  assert (Em : tm_mids t = mk_mid true cfg (Z.of_nat (length l0)) l1 (Z.of_nat (length l2)) :: mk_mids true cfg (Z.of_nat (length l0)) (l2 :: rest)) by reflexivity.
+  rewrite Em. cbn [mids_bytes]. unfold mid_bytes at 1. rewrite !app_length.
+  pose proof (bhiksha_bytes_len (Z.of_nat (length (uni_bytes t))) cfg (mm_offs (mk_mid true cfg (Z.of_nat (length l0)) l1 (Z.of_nat (length l2))))) as Hb.
+  lia.
+Qed.
